@@ -28,7 +28,7 @@ def plan(tier, seed):
     cases = []
     for i in range(n):
         cases.append({"index": i, "seed": [seed, 41, i], "cfg": "quick" if tier == "quick" else "thorough",
-                      "cfg_over": {"max_T": 4}, "force": {"aux_params": i % 2 == 0, "period_utility": i % 3 == 0},
+                      "cfg_over": {"max_T": 4}, "force": {"aux_params": i % 2 == 0, "period_utility": i % 3 == 0, "scalar_aux": i % 3 == 1},
                       "agents": [1, 2, 7, 64][i % 4], "force_T": [None, 1, None, None, 2][i % 5],
                       "n_target_sets": 2 if tier == "quick" else 3, "env": {"VERIF_X64": "1"}})
     return cases
